@@ -330,9 +330,9 @@ StmtErrs(P, F, et, b) ==
                                    ELSE IF ~IsPtr(Ty(s.p)) THEN {"Store: pointer operand is not a pointer"}
                                    ELSE IF ~Compat(Ty(s.v), Pointee(Ty(s.p).e)) THEN {"Store: value type differs from the pointee type"}
                                    ELSE {}
-               [] s.k = "Call" -> IF ~InR(s.f, Len(P.fns)) THEN {"Call: function handle out of range"}
+               [] s.k = "Call" -> IF ~InR(s.f, Len(P.fns)) THEN {"Call: call target out of range (function handle)"}
                                   ELSE LET callee == P.fns[s.f + 1] IN
-                                       (IF Len(s.args) # Len(callee.args) THEN {"Call: argument count"} ELSE {})
+                                       (IF Len(s.args) # Len(callee.args) THEN {"Call: argument count differs from the callee's parameter count"} ELSE {})
                                        \cup (IF \E i \in 1 .. Len(s.args) : ~H(s.args[i]) THEN {"Call: argument handle out of range"}
                                              ELSE IF Len(s.args) = Len(callee.args) /\ \E i \in 1 .. Len(s.args) : ~Compat(Ty(s.args[i]), TT(P, callee.args[i].ty))
                                                   THEN {"Call: argument type differs from the parameter type"} ELSE {})
@@ -342,6 +342,8 @@ StmtErrs(P, F, et, b) ==
                [] s.k = "Atomic" -> IF ~H(s.p) \/ (s.f # "Load" /\ ~H(s.v)) \/ (s.res >= 0 /\ ~H(s.res)) \/ (s.cmp >= 0 /\ ~H(s.cmp))
                                     THEN {"Atomic: handle out of range"}
                                     ELSE IF ~IsUnk(Ty(s.p)) /\ ~(IsPtr(Ty(s.p)) /\ Ty(s.p).e.k = "atomic") THEN {"Atomic: pointer operand is not a pointer to an atomic"}
+                                    ELSE IF ~IsUnk(Ty(s.p)) /\ s.f # "Load" /\ ~Compat(Ty(s.v), Ty(s.p).e.e) THEN {"Atomic: value type differs from the atomic's scalar type"}
+                                    ELSE IF ~IsUnk(Ty(s.p)) /\ s.cmp >= 0 /\ ~Compat(Ty(s.cmp), Ty(s.p).e.e) THEN {"Atomic: comparand type differs from the atomic's scalar type"}
                                     ELSE {}
                [] OTHER -> {}
        IN  here : si \in 1 .. Len(b)}
@@ -654,6 +656,7 @@ Ev(P, C, h, st) ==
   ELSE
   CASE e.k = "Literal" -> <<e.v, st>>
     [] e.k = "Constant" ->
+         IF ~InR(e.c, Len(P.consts)) THEN <<0, Abandon(st, "stuck:constant handle out of range")>> ELSE
          LET r == Use(P, GC(P), P.consts[e.c + 1].init, [st EXCEPT !.vals = P.gnv, !.tmp = P.gnv]) IN
          <<r[1], IF Running(r[2]) THEN st ELSE Abandon(st, r[2].sig)>>
     [] e.k = "ZeroValue" -> IF Sized(t) THEN <<ZeroOfT(t), st>> ELSE <<0, Abandon(st, "undecided:zero value of an unsized type")>>
@@ -680,9 +683,11 @@ Ev(P, C, h, st) ==
          IF ~Running(v[2]) THEN <<0, v[2]>>
          ELSE IF e.n = 1 THEN <<v[1][e.pat[1] + 1], v[2]>>
          ELSE <<[i \in 1 .. e.n |-> v[1][e.pat[i] + 1]], v[2]>>
-    [] e.k = "FunctionArgument" -> <<C.args[e.i + 1], st>>
-    [] e.k = "GlobalVariable" -> <<[root |-> e.g + 1, path |-> <<>>], st>>
-    [] e.k = "LocalVariable" -> <<[root |-> C.lbase + e.l + 1, path |-> <<>>], st>>
+    [] e.k = "FunctionArgument" -> IF InR(e.i, Len(C.args)) THEN <<C.args[e.i + 1], st>> ELSE <<0, Abandon(st, "stuck:function argument index out of range")>>
+    [] e.k = "GlobalVariable" -> IF InR(e.g, Len(P.globals)) THEN <<[root |-> e.g + 1, path |-> <<>>], st>>
+                                 ELSE <<0, Abandon(st, "stuck:global variable handle out of range")>>
+    [] e.k = "LocalVariable" -> IF InR(e.l, Len(C.F.locals)) THEN <<[root |-> C.lbase + e.l + 1, path |-> <<>>], st>>
+                                ELSE <<0, Abandon(st, "stuck:local variable index out of range")>>
     [] e.k = "Load" -> LET p == Use(P, C, e.p, st) IN
          IF ~Running(p[2]) THEN <<0, p[2]>> ELSE <<GetPath(p[2].mem[p[1].root], p[1].path), p[2]>>
     [] e.k = "Alias" -> Use(P, C, e.src, st)
@@ -796,6 +801,9 @@ InitLocals(P, C, i, st) ==
 \* call of function F with argument values; returns the state of the caller after the call (rv = the result)
 CallFn(P, fi, args, st) ==
   IF st.fuel = 0 THEN Abandon(st, "fuel")
+  ELSE IF ~InR(fi, Len(P.fns)) THEN Abandon(st, "stuck:call target out of range")
+  ELSE IF P.fes[fi + 1] # {} THEN Abandon(st, "stuck:call of a function that is not well-formed")
+  ELSE IF Len(args) # Len(P.fns[fi + 1].args) THEN Abandon(st, "stuck:call with the wrong number of arguments")
   ELSE LET F == P.fns[fi + 1]
            C == [F |-> F, et |-> P.fet[fi + 1], em |-> P.fem[fi + 1], args |-> args, lbase |-> Len(st.mem), nv |-> NoVals(F)]
            st0 == [st EXCEPT !.fuel = @ - 1, !.vals = NoVals(F), !.tmp = NoVals(F), !.pred = NoPred,
@@ -892,7 +900,11 @@ Prep(M) ==
        T |-> P0.T, GF |-> P0.GF, get |-> ExprTypes(P0, P0.GF),
        gem |-> Force([i \in 1 .. Len(M.gexprs) |-> FALSE]), gnv |-> Force([i \in 1 .. Len(M.gexprs) |-> <<>>]),
        fet |-> fet, fem |-> Force([i \in 1 .. Len(M.fns) |-> Emitted(M.fns[i])]),
-       eet |-> eet, eem |-> Force([i \in 1 .. Len(M.eps) |-> Emitted(M.eps[i].fn)])]
+       eet |-> eet, eem |-> Force([i \in 1 .. Len(M.eps) |-> Emitted(M.eps[i].fn)]),
+       \* the ill-formed spots of every function (FnErrs uses guarded dereferences only); the evaluator never enters a
+       \* function that has one, so that running a module is total whatever a pass left behind
+       fes |-> Force([i \in 1 .. Len(M.fns) |-> FnErrs(P0, M.fns[i], fet[i], "function " \o M.fns[i].name)]),
+       ees |-> Force([i \in 1 .. Len(M.eps) |-> FnErrs(P0, M.eps[i].fn, eet[i], "entry point " \o M.eps[i].name)])]
 
 \* every ill-formed spot of the module (the empty set: well-formed)
 WFErrors(P) ==
@@ -902,8 +914,8 @@ WFErrors(P) ==
   \cup (IF \E i \in 1 .. Len(P.globals) : IsBad(TT(P, P.globals[i].ty)) \/ (P.globals[i].init >= 0 /\ ~InR(P.globals[i].init, Len(P.GF.exprs)))
         THEN {"global variables: type or init handle out of range"} ELSE {})
   \cup FnErrs(P, P.GF, P.get, "global expressions")
-  \cup UNION {FnErrs(P, P.fns[i], P.fet[i], "function " \o P.fns[i].name) : i \in 1 .. Len(P.fns)}
-  \cup UNION {FnErrs(P, P.eps[i].fn, P.eet[i], "entry point " \o P.eps[i].name) : i \in 1 .. Len(P.eps)}
+  \cup UNION {P.fes[i] : i \in 1 .. Len(P.fns)}
+  \cup UNION {P.ees[i] : i \in 1 .. Len(P.eps)}
 
 IsBufferG(g) == g.space \in {"storage", "uniform"}
 BufIndex(bufs, g) == LET s == {b \in 1 .. Len(bufs) : bufs[b][1] = g.group /\ bufs[b][2] = g.binding} IN
@@ -937,7 +949,8 @@ RunStateI(P, epi, bufs, row) ==
   LET g == InitGlobalsI(P, bufs, row, 1, <<<<>>, "">>)
       F == P.eps[epi].fn
       base == [mem |-> g[1], fuel |-> FuelI, sig |-> "n", rv |-> 0, vals |-> NoVals(F), tmp |-> NoVals(F), pred |-> NoPred]
-  IN  IF g[2] # "" THEN [base EXCEPT !.sig = g[2]]
+  IN  IF P.ees[epi] # {} THEN [base EXCEPT !.sig = "stuck:the entry point is not well-formed"]
+      ELSE IF g[2] # "" THEN [base EXCEPT !.sig = g[2]]
       ELSE IF \E i \in 1 .. Len(F.args) : ~(LET t == TT(P, F.args[i].ty) IN ~IsUnk(t) /\ ~IsBad(t) /\ Sized(t))
            THEN [base EXCEPT !.sig = "undecided:entry point argument outside the covered fragment"]
       ELSE LET C == [F |-> F, et |-> P.eet[epi], em |-> P.eem[epi],
